@@ -198,7 +198,24 @@ def run_case(case, ctx):
             t2 = qr.TimeAxis(float(t.data[1]), max(2, (Nt - 1) // 2), 2 * dt) if Nt >= 5 else None
             got_t2 = numpy.array(eU.apply(t2, r_in).data) if t2 is not None else None
             at1 = numpy.array(eU.at(float(t.data[Nt - 1])).data)
+            # states whose matrix the caller stored as a real (float) or integer array: populations, real symmetric states
+            rr = numpy.real(rho0).astype(float).copy()
+            ev_rr = numpy.array(prop.propagate(qr.ReducedDensityMatrix(data=rr.astype(complex))).data)
+            tk_ = int(rng.integers(1, Nt))
+            got_rr = numpy.array(eU.apply(float(t.data[tk_]), qr.ReducedDensityMatrix(data=rr.copy())).data)
+            tgt_ = qr.ReducedDensityMatrix(data=rr.copy())
+            ret_ = eU.apply(float(t.data[tk_]), tgt_, copy=False)
+            got_rr_inplace = numpy.array((ret_ if ret_ is not None else tgt_).data)
+            ri = numpy.zeros((dim, dim), dtype=int)
+            ri[dim - 1, dim - 1] = 1
+            ev_ri = numpy.array(prop.propagate(qr.ReducedDensityMatrix(data=ri.astype(complex))).data)
+            got_ri = numpy.array(eU.apply(float(t.data[tk_]), qr.ReducedDensityMatrix(data=ri.copy())).data)
+            got_ri_all = numpy.array(eU.apply("all", qr.ReducedDensityMatrix(data=ri.copy())).data)
     tol = 512 * EPS * Nt * dense * dim * dim * Mn
+    ctx.check("apply==propagate", float(numpy.max(numpy.abs(got_rr - ev_rr[tk_]))), tol, dict(det, how="scalar time, state stored as a real array", index=tk_))
+    ctx.check("apply==propagate", float(numpy.max(numpy.abs(got_rr_inplace - ev_rr[tk_]))), tol, dict(det, how="scalar time, copy=False, state stored as a real array", index=tk_))
+    ctx.check("apply==propagate", float(numpy.max(numpy.abs(got_ri - ev_ri[tk_]))), tol, dict(det, how="scalar time, state stored as an integer array", index=tk_))
+    ctx.check("apply==propagate", float(numpy.max(numpy.abs(got_ri_all - ev_ri))), tol, dict(det, how="'all', state stored as an integer array"))
     ctx.check("apply==propagate", float(numpy.max(numpy.abs(got_scalar - ev))), tol, dict(det, how="scalar times"))
     ctx.check("apply==propagate", float(numpy.max(numpy.abs(got_all - ev))), tol, dict(det, how="'all'"))
     ctx.check("apply==propagate", float(numpy.max(numpy.abs(got_axis - ev))), tol, dict(det, how="own TimeAxis"))
